@@ -300,4 +300,77 @@ theorem crossSum_swap_reverse (p : Pt) (es : List (Pt × Pt)) :
     rw [ih, cross_swap p a b]
     omega
 
+/-! ### axis-parallel sides -/
+
+theorem mul_neg_iff_of_pos (a c : Int) (hc : 0 < c) : a * c < 0 ↔ a < 0 := by
+  constructor
+  · intro h
+    by_cases ha : a < 0
+    · exact ha
+    · have := Int.mul_nonneg (by omega : 0 ≤ a) (by omega : 0 ≤ c); omega
+  · intro h; exact Int.mul_neg_of_neg_of_pos h hc
+
+theorem cross_vertical_up (p : Pt) (x ya yb : Int) (h : ya < yb) :
+    cross p ((x, ya), (x, yb)) = if ya ≤ p.2 ∧ p.2 < yb ∧ p.1 < x then 1 else 0 := by
+  obtain ⟨p1, p2⟩ := p
+  simp only [cross, right, left, trip, sub]
+  have e : (p1 - x) * (yb - ya) - (p2 - ya) * (x - x) = (p1 - x) * (yb - ya) := by
+    have : x - x = 0 := by omega
+    rw [this]; simp
+  simp only [e]
+  have s := mul_neg_iff_of_pos (p1 - x) (yb - ya) (by omega)
+  by_cases h1 : ya ≤ p2 <;> by_cases h2 : yb > p2 <;> by_cases h3 : p1 < x <;> simp [h1, h2, h3, s] <;> omega
+
+theorem cross_vertical_down (p : Pt) (x ya yb : Int) (h : ya < yb) :
+    cross p ((x, yb), (x, ya)) = if ya ≤ p.2 ∧ p.2 < yb ∧ p.1 < x then -1 else 0 := by
+  rw [cross_swap, cross_vertical_up p x ya yb h]
+  split <;> simp
+
+theorem cross_horizontal (p : Pt) (a b y : Int) : cross p ((a, y), (b, y)) = 0 := by
+  simp only [cross]
+  by_cases h : y ≤ p.2
+  · have : ¬ y > p.2 := by omega
+    simp [h, this]
+  · simp [h]
+
+theorem tween2_horizontal (p : Pt) (a b y : Int) (h : a < b) :
+    tween2 p (a, y) (b, y) = decide (p.2 = y ∧ a ≤ p.1 ∧ p.1 ≤ b) := by
+  rw [Bool.eq_iff_iff, tween2_iff, decide_eq_true_iff]
+  obtain ⟨p1, p2⟩ := p
+  simp only [OnSegment]
+  constructor
+  · rintro ⟨n, d, hn, hnd, hd, e1, e2⟩
+    have hz : y - y = 0 := by omega
+    rw [hz, Int.mul_zero] at e2
+    have hy : p2 - y = 0 := eq_zero_of_pos_mul d _ hd e2
+    have h1 : 0 ≤ p1 - a := nonneg_of_pos_mul d _ hd (by rw [e1]; exact Int.mul_nonneg hn (by omega))
+    have h2 : d * (p1 - a) ≤ d * (b - a) := by rw [e1]; exact Int.mul_le_mul_of_nonneg_right hnd (by omega)
+    have h3 := Int.le_of_mul_le_mul_left h2 hd
+    omega
+  · rintro ⟨hy, h1, h2⟩
+    refine ⟨p1 - a, b - a, by omega, by omega, by omega, Int.mul_comm _ _, ?_⟩
+    have : p2 - y = 0 := by omega
+    have h0 : y - y = 0 := by omega
+    rw [this, h0]; simp
+
+theorem tween2_vertical (p : Pt) (x a b : Int) (h : a < b) :
+    tween2 p (x, a) (x, b) = decide (p.1 = x ∧ a ≤ p.2 ∧ p.2 ≤ b) := by
+  rw [Bool.eq_iff_iff, tween2_iff, decide_eq_true_iff]
+  obtain ⟨p1, p2⟩ := p
+  simp only [OnSegment]
+  constructor
+  · rintro ⟨n, d, hn, hnd, hd, e1, e2⟩
+    have hz : x - x = 0 := by omega
+    rw [hz, Int.mul_zero] at e1
+    have hx : p1 - x = 0 := eq_zero_of_pos_mul d _ hd e1
+    have h1 : 0 ≤ p2 - a := nonneg_of_pos_mul d _ hd (by rw [e2]; exact Int.mul_nonneg hn (by omega))
+    have h2 : d * (p2 - a) ≤ d * (b - a) := by rw [e2]; exact Int.mul_le_mul_of_nonneg_right hnd (by omega)
+    have h3 := Int.le_of_mul_le_mul_left h2 hd
+    omega
+  · rintro ⟨hx, h1, h2⟩
+    refine ⟨p2 - a, b - a, by omega, by omega, by omega, ?_, Int.mul_comm _ _⟩
+    have : p1 - x = 0 := by omega
+    have h0 : x - x = 0 := by omega
+    rw [this, h0]; simp
+
 end Ioflo.Poly
